@@ -261,7 +261,7 @@ func (e ProtoEngine) Gen(prop, tier string, seed uint64, yield func(c any) bool)
 	case "bac":
 		n := 600
 		if thorough {
-			n = 40000
+			n = 1200000
 		}
 		for i := 0; i < n; i++ {
 			s := base()
@@ -292,7 +292,7 @@ func (e ProtoEngine) Gen(prop, tier string, seed uint64, yield func(c any) bool)
 		}
 		m := 400
 		if thorough {
-			m = 20000
+			m = 600000
 		}
 		for i := 0; i < m; i++ {
 			s := base()
@@ -398,7 +398,7 @@ func (e ProtoEngine) Gen(prop, tier string, seed uint64, yield func(c any) bool)
 		}
 		n := 1500
 		if thorough {
-			n = 60000
+			n = 400000
 		}
 		for i := 0; i < n; i++ {
 			s := base()
